@@ -93,6 +93,8 @@ def gen_c15(rng, fs, i, cfg):
         op["soft"] = True
     if kind == "cp" and not same and rng.random() < 0.15:
         op["overwrite"] = True
+    if rng.random() < 0.2:
+        op["cli"] = True
     return op
 
 
@@ -255,6 +257,10 @@ def gen_c07(rng, fs, i, cfg):
     if rng.random() < 0.15:
         col = rng.choice(op["columns"] or ["count"])
         op["agg"] = {col: rng.choice(["max", "min"])}
+    if rng.random() < 0.15 and (not op["agg"] or op["columns"]):
+        op["cli"] = True
+        if fid not in fs.files and rng.random() < 0.5:
+            op["mode"] = "w"
     return op
 
 
@@ -460,8 +466,11 @@ def gen_c06(rng, fs, i, cfg):
                                max_merge=rng.choice([1, 2, 3, 4, 200]))
         op["form"] = rng.choice(["iter", "iterdict"])
     else:
-        if rng.random() < 0.15:
+        r0 = rng.random()
+        if r0 < 0.12:
             return gen_cliload(rng, fs, i, cfg)
+        if r0 < 0.22:
+            return gen_clipairs(rng, fs, i, cfg)
         op = gen.gen_unordered(rng, gen.gen_layout(rng, cfg.get("maxchroms", 4), cfg.get("maxbins", 8)),
                                maxpx=cfg.get("maxpx", 40), maxchunks=rng.choice([3, 6, 8, 11]))
         ctx["last"] = op
@@ -648,8 +657,11 @@ def gen_c02(rng, fs, i, cfg):
     ctx = _ctx(cfg)
     if "theme" not in ctx:
         ctx["theme"] = rng.choice(THEMES)
-    if rng.random() < 0.12:
+    r0 = rng.random()
+    if r0 < 0.10:
         return gen_cliload(rng, fs, i, cfg)
+    if r0 < 0.16:
+        return gen_clipairs(rng, fs, i, cfg)
     op = globals()[ctx["theme"]](rng, fs, i, cfg)
     if op is None:
         # the theme is exhausted (e.g. zoomify done): continue with coarsen/merge chains
@@ -746,3 +758,35 @@ def gen_c11(rng, fs, i, cfg):
             v["nproc"] = rng.choice([2, 3, 4])
         visit.append(v)
     return {"op": "balance", "file": f, "path": p, "options": opts, "configs": configs, "visit": visit}
+
+
+def gen_clipairs(rng, fs, i, cfg):
+    """Pairs text whose binning is unambiguous (positions strictly inside their bins, 1-based)."""
+    kind = rng.choice(["fixed", "fixed-exact", "variable", "longlast", "onebin", "mixed-one"])
+    lay = gen.gen_layout(rng, cfg.get("maxchroms", 4), cfg.get("maxbins", 8), kind)
+    n = gen.nbins_of(lay)
+    symm = rng.random() < 0.7
+    support = gen.gen_support(rng, n, symm, None, 25)
+    counts = [rng.randint(1, 4) for _ in support]
+    binof = []
+    for c, e in enumerate(lay["edges"]):
+        for s_, e_ in zip(e[:-1], e[1:]):
+            binof.append((c, s_, e_))
+    lines = []
+    for (a, b), v in zip(support, counts):
+        for _ in range(v):
+            ca, sa, ea = binof[a]
+            cb, sb, eb = binof[b]
+            pa, pb = rng.randint(sa + 1, ea), rng.randint(sb + 1, eb)
+            if symm and rng.random() < 0.5:
+                lines.append([cb, pb, ca, pa])   # lower-triangle orientation: must be reflected
+            else:
+                lines.append([ca, pa, cb, pb])
+    rng.shuffle(lines)
+    rec = {"bin1_id": [p[0] for p in support], "bin2_id": [p[1] for p in support], "count": counts}
+    fid = rng.choice(["f0", "f1"])
+    total = len(lines)
+    return {"op": "clipairs", "layout": lay, "symmetric": symm, "records": rec, "lines": lines, "file": fid,
+            "path": _dest(rng, fs, fid, prefer_new=0.85), "mode": "a" if rng.random() < 0.85 else "w",
+            "chunksize": rng.choice([1, 2, 3, 5, max(1, total // 2), total + 1, 10**6]),
+            "max_merge": rng.choice([1, 2, 3, 200]), "mergebuf": rng.choice([None, 1, 3, 10**6])}
